@@ -8,12 +8,14 @@ CONSTANTS
   Metrics <- S8Metrics
   TimingShard = 1
   T0 = 64
+  Lags0 = {2}
+  Fulls0 = {FALSE}
   Ticks <- S8Ticks
   TsOffs <- S8Offs
   Kinds = {"api"}
   SpreadOf <- AllSpread
   Variant = "code"
-  MaxOps = 6
+  MaxOps = 7
   MaxEvents = 2
 VIEW View
 INVARIANTS ExactlyOnce AllFlushed NotEarly RingOK Rounded Placement DropsJustified OutIncreasing SendBound ChanCap
